@@ -8,7 +8,7 @@ tier's resolution or deviation bound).  One row per seed:
 
   seed <TAB> catching check <TAB> tier <TAB> exit <TAB> clause <TAB> exit of the own-property quick check
 
-  tools/seed_sweep.py [seed-id-glob ...]
+  tools/seed_sweep.py [-jN] [seed-id-glob ...]      (N seeds at a time; XPMC_NPROC workers each)
 """
 import fnmatch
 import glob
@@ -31,8 +31,23 @@ def run(seed_dir, check, tier):
     return (int(m.group(1)) if m else -1), (c.group(1) if c else "")
 
 
+def one(d):
+    sid = os.path.basename(d)
+    prop = sid.split("-")[1]
+    own, clause = run(d, prop, "quick")
+    row = [sid, prop, "quick", str(own), clause, str(own)]
+    if own != 1:
+        for chk, tier in CATCHERS.get(sid, []):
+            ex, cl = run(d, chk, tier)
+            row = [sid, chk, tier, str(ex), cl, str(own)]
+            if ex == 1:
+                break
+    return row
+
+
 def main():
-    pats = sys.argv[1:] or ["*"]
+    pats = [a for a in sys.argv[1:] if not a.startswith("-j")] or ["*"]
+    jobs = int(([a[2:] for a in sys.argv[1:] if a.startswith("-j")] or ["1"])[0])
     out_path = os.path.join(ROOT, "seeded", "SUMMARY.tsv")
     rows = {}
     if os.path.exists(out_path):
@@ -40,24 +55,16 @@ def main():
             f = l.rstrip("\n").split("\t")
             if len(f) >= 6:
                 rows[f[0]] = f
-    for d in sorted(glob.glob(os.path.join(ROOT, "seeded", "S*-C*"))):
-        sid = os.path.basename(d)
-        if not any(fnmatch.fnmatch(sid, p) for p in pats):
-            continue
-        prop = sid.split("-")[1]
-        own, clause = run(d, prop, "quick")
-        row = [sid, prop, "quick", str(own), clause, str(own)]
-        if own != 1:
-            for chk, tier in CATCHERS.get(sid, []):
-                ex, cl = run(d, chk, tier)
-                row = [sid, chk, tier, str(ex), cl, str(own)]
-                if ex == 1:
-                    break
-        rows[sid] = row
-        print("\t".join(row), flush=True)
-        with open(out_path, "w") as f:
-            for k in sorted(rows):
-                f.write("\t".join(rows[k]) + "\n")
+    import concurrent.futures
+    dirs = [d for d in sorted(glob.glob(os.path.join(ROOT, "seeded", "S*-C*")))
+            if any(fnmatch.fnmatch(os.path.basename(d), p) for p in pats)]
+    with concurrent.futures.ThreadPoolExecutor(max_workers=jobs) as ex:
+        for row in ex.map(one, dirs):
+            rows[row[0]] = row
+            print("\t".join(row), flush=True)
+            with open(out_path, "w") as f:
+                for k in sorted(rows):
+                    f.write("\t".join(rows[k]) + "\n")
 
 
 if __name__ == "__main__":
